@@ -19,7 +19,35 @@ theorem C13_register_iff (env : Env) (s s' : State) (txs : List Tx) (fb : Header
     s'.stakes.getStake k = some d ↔
       (∃ tx ∈ txs, tx.hash = k ∧ Registers s tx d) ∨
       ((∀ tx ∈ txs, tx.hash = k → ∀ d', ¬ Registers s tx d') ∧ s.stakes.getStake k = some d) := by
-  sorry
+  obtain ⟨rel, ns, _, hns, _, hst⟩ := applyBatch_ok env s s' txs fb h
+  rw [loadStakeInfo_eq] at hns
+  have hiff := stakeFold_get_iff s k d txs [] ns hns hu
+  have hget : s'.stakes.getStake k = (AList.get ns k).or (s.stakes.getStake k) := by
+    rw [hst]; exact AList.get_reverse_foldl_set ns s.stakes k
+  constructor
+  · intro hs
+    rw [hget] at hs
+    cases hk : AList.get ns k with
+    | some v =>
+      rw [hk, Option.some_or] at hs; cases hs
+      rcases hiff.mp hk with hreg | ⟨_, hnil⟩
+      · exact .inl hreg
+      · simp [AList.get] at hnil
+    | none =>
+      rw [hk, Option.none_or] at hs
+      refine .inr ⟨?_, hs⟩
+      intro tx ht htk d' hreg
+      have := (stakeFold_get_iff s k d' txs [] ns hns hu).mpr (.inl ⟨tx, ht, htk, hreg⟩)
+      rw [hk] at this; cases this
+  · rintro (hreg | ⟨hall, hold⟩)
+    · rw [hget, hiff.mpr (.inl hreg), Option.some_or]
+    · rw [hget]
+      cases hk : AList.get ns k with
+      | some v =>
+        rcases (stakeFold_get_iff s k v txs [] ns hns hu).mp hk with ⟨tx, ht, htk, hreg⟩ | ⟨_, hnil⟩
+        · exact absurd hreg (hall tx ht htk v)
+        · simp [AList.get] at hnil
+      | none => rw [Option.none_or]; exact hold
 
 /-- outside the legacy window a stake transaction with undecodable data, no output, or a first output
     that is not SYM makes the batch fail -/
@@ -27,7 +55,11 @@ theorem C13_malformed (env : Env) (s : State) (txs : List Tx) (fb : Header) (tx 
     (hk : tx.kind = .stake) (hl : legacyStakeReg s = false)
     (hbad : tx.stakeDoc = none ∨ tx.outputs = [] ∨ ∃ o, tx.outputs.head? = some o ∧ o.denom ≠ .sym) :
     ∀ s', applyBatch env s txs fb ≠ .ok s' := by
-  sorry
+  intro s' h
+  obtain ⟨rel, ns, _, hns, _, _⟩ := applyBatch_ok env s s' txs fb h
+  rw [loadStakeInfo_eq] at hns
+  obtain ⟨b1, b2, hstep⟩ := Outcome.foldlM'_ok_mem _ _ _ _ _ htx hns
+  exact stakeStep_malformed s tx hk hl hbad b1 b2 hstep
 
 /-- while a stake is registered (or being registered in this batch) no output of its transaction can be
     spent (outside the legacy window) -/
@@ -35,7 +67,16 @@ theorem C13_locked (env : Env) (s : State) (txs : List Tx) (fb : Header) (tx : T
     (id : CoinID) (hid : id ∈ tx.inputs) (hl : legacyStakeLock s = false)
     (hst : (s.stakes.getStake id.txhash).isSome ∨ ∃ t ∈ txs, t.hash = id.txhash ∧ ∃ d, Registers s t d) :
     ∀ s', applyBatch env s txs fb ≠ .ok s' := by
-  sorry
+  intro s' h
+  obtain ⟨rel, ns, _, hns, hchk, _⟩ := applyBatch_ok env s s' txs fb h
+  rw [loadStakeInfo_eq] at hns
+  have hv := Outcome.forM'_ok_mem _ _ _ htx hchk
+  refine checkTxValidity_locked env s _ tx rel ns id hid hl ?_ hv
+  rcases hst with hst | ⟨t, ht, hth, d, hreg⟩
+  · simp [hst]
+  · have := stakeFold_contains s t d hreg txs [] ns hns ht
+    rw [hth] at this
+    simp [this]
 
 /-- … and for a single otherwise-loadable transaction the error is `CoinLocked` -/
 theorem C13_locked_error (env : Env) (s : State) (tx : Tx) (fb : Header) (rel : Relevant)
@@ -43,7 +84,19 @@ theorem C13_locked_error (env : Env) (s : State) (tx : Tx) (fb : Header) (rel : 
     (id : CoinID) (hfirst : tx.inputs.head? = some id) (hl : legacyStakeLock s = false)
     (hst : (s.stakes.getStake id.txhash).isSome) :
     applyBatch env s [tx] fb = .reject .coinLocked := by
-  sorry
+  have hns : loadStakeInfo s [tx] = .ok [] := by
+    rw [loadStakeInfo_eq]
+    simp [Outcome.foldlM', stakeStep, hns]
+  obtain ⟨rest, hin⟩ : ∃ rest, tx.inputs = id :: rest := by
+    cases hi : tx.inputs with
+    | nil => rw [hi] at hfirst; cases hfirst
+    | cons a rest => rw [hi] at hfirst; simp at hfirst; exact ⟨rest, by rw [hfirst]⟩
+  have hchk : ∀ lh, checkTxValidity env s lh tx rel [] = .reject .coinLocked := by
+    intro lh
+    unfold checkTxValidity
+    simp [hin, List.zipIdx_cons, Outcome.foldlM', hst, hl, Outcome.bind]
+  unfold applyBatch
+  simp [hrel, hns, Outcome.bind, Outcome.forM', hchk]
 
 /-- opening a block drops exactly the stakes whose end epoch is before the new block's epoch: a stake with
     end field `e` stays registered (hence locked) through the last block of epoch `e` and is gone from the
@@ -54,32 +107,61 @@ theorem C13_unlock (env : Env) (ss : Sealed) (s' : State) (h : nextUnsealed env 
       match ss.st.stakes.getStake k with
       | some d => if d.ePostEnd ≥ (ss.st.height + 1) / STAKE_EPOCH then some d else none
       | none => none := by
-  sorry
+  have hs : s'.stakes = ss.st.stakes.unlockOld ((ss.st.height + 1) / STAKE_EPOCH) := by
+    unfold nextUnsealed at h
+    obtain ⟨hdr, _, h⟩ := Outcome.bind_eq_ok h
+    simp only at h
+    split at h <;> (cases h; rfl)
+  rw [hs]
+  unfold StakeSet.unlockOld StakeSet.getStake
+  rw [AList.get_filter _ _ hu]
+  cases AList.get ss.st.stakes k with
+  | none => rfl
+  | some d => simp
 
 /-- sealing never touches the stake set -/
 theorem C13_seal_keeps_stakes (env : Env) (s : State) (a : Option ProposerAction) (ss : Sealed)
     (h : sealState env s a = .ok ss) : ss.st.stakes = s.stakes := by
-  sorry
+  exact sealState_sameSt env s a ss h
 
 /-- voting power of a key = sum of its registered stakes with start ≤ epoch < end -/
 theorem C13_votes (st : StakeSet) (epoch : Nat) (key : Bytes) :
     st.votes epoch key =
       ((st.filter fun e => e.2.eStart ≤ epoch ∧ epoch < e.2.ePostEnd ∧ e.2.pubkey = key).map (·.2.symsStaked)).sum := by
-  sorry
+  unfold StakeSet.votes
+  congr 2
+  apply List.filter_congr
+  intro e _
+  by_cases hk : e.2.pubkey = key <;> simp [StakeSet.active, Bool.and_assoc, hk]
 
 theorem C13_total_votes (st : StakeSet) (epoch : Nat) :
     st.totalVotes epoch = ((st.filter fun e => e.2.eStart ≤ epoch ∧ epoch < e.2.ePostEnd).map (·.2.symsStaked)).sum := by
-  sorry
+  unfold StakeSet.totalVotes
+  congr 2
+  apply List.filter_congr
+  intro e _
+  simp [StakeSet.active]
 
 /-- the total is the sum of the per-key tallies over the distinct keys (no vote is lost or double counted) -/
 theorem C13_total_is_sum_of_keys (st : StakeSet) (epoch : Nat) (keys : List Bytes) (hn : keys.Nodup)
     (hall : ∀ e ∈ st, e.2.pubkey ∈ keys) :
     st.totalVotes epoch = (keys.map (st.votes epoch)).sum := by
-  sorry
+  exact (StakeSet.sum_votes_eq_total st epoch keys hn (fun e he _ => hall e he)).symm
 
 /-- known deviation (K2): inside the legacy window stake transactions are let through unregistered -/
 theorem C13_legacy_window (s : State) (txs : List Tx) (h : legacyStakeReg s = true) :
     loadStakeInfo s txs = .ok [] := by
-  sorry
+  exact loadStakeInfo_legacy s txs h
 
 end Mel
+
+#print axioms Mel.C13_register_iff
+#print axioms Mel.C13_malformed
+#print axioms Mel.C13_locked
+#print axioms Mel.C13_locked_error
+#print axioms Mel.C13_unlock
+#print axioms Mel.C13_seal_keeps_stakes
+#print axioms Mel.C13_votes
+#print axioms Mel.C13_total_votes
+#print axioms Mel.C13_total_is_sum_of_keys
+#print axioms Mel.C13_legacy_window
